@@ -183,7 +183,13 @@ def lexAux : Nat → List Char → Bool → List Tok → LexRes
         let (run, r) := spanWhile isWordChar (c :: rest)
         if c == '_' && prevWord then .unsupported
         else if isSimpleRun run then lexAux fuel r true (.word (String.ofList run) :: acc)
-        else if c == '_' then .unsupported
+        else if c == '_' then
+          -- `no_par = @{ "_" }` (a tuple component / a constant that is not named); `_{…}` would be a compound
+          -- variable without a base name
+          match run, r with
+          | ['_'], '{' :: _ => .unsupported
+          | ['_'], _ => lexAux fuel r true (.word "_" :: acc)
+          | _, _ => .unsupported
         else
           -- `compound_variable`: `base_seg_seg…`
           match splitRun run with
